@@ -1,5 +1,5 @@
 SPECIFICATION Spec
-CONSTANTS Mode = "energy"  Variant = "pec_normal"  Family = "list"  List = { 1090312 }  Steps = 1
+CONSTANTS Mode = "energy"  Variant = "pec_normal"  Family = "list"  List = { 1090101 }  Steps = 1  PairMod = 7
           Extra = { 1000 }
 INVARIANT TypeOK
 INVARIANT EnergyBalance
